@@ -28,7 +28,10 @@ MUTABLE = (LIST, DICT, SET)
 HASHABLE_KINDS = (LEAF, TUPLE, FSET)
 
 
-def build(kinds, parents, alias):
+ODD_KEYS = [None, 0, ('t', 1), 'k', 2.5, False]
+
+
+def build(kinds, parents, alias, keystyle=0):
     """returns (root, objs) or None if the combination is not constructible"""
     n = len(kinds)
     children = [[] for _ in range(n)]
@@ -86,7 +89,10 @@ def build(kinds, parents, alias):
         elif k == LIST:
             objs[i] = [o for _, o in members]
         elif k == DICT:
-            objs[i] = {'k%s' % tag: o for tag, o in members}
+            if keystyle:
+                objs[i] = {ODD_KEYS[pos]: o for pos, (tag, o) in enumerate(members)}
+            else:
+                objs[i] = {'k%s' % tag: o for tag, o in members}
         elif k == TUPLE:
             objs[i] = tuple(o for _, o in members)
         elif k == SET:
@@ -202,8 +208,8 @@ def mutable_ids(x, acc=None):
     return acc
 
 
-def _body(kinds, parents, alias, cell, action):
-    b = build(kinds, parents, alias)
+def _body(kinds, parents, alias, cell, action, keystyle=0):
+    b = build(kinds, parents, alias, keystyle)
     if b is None:
         return None
     root, objs = b
@@ -278,6 +284,9 @@ def remap_law(n: int, k0: int, k1: int, k2: int, k3: int, k4: int, p2: int, p3: 
         has_alias = cz(has_alias, 0, 1)
         if has_alias:
             alias = (cz(af, 0, n - 1), cz(at, 0, n - 1))
+    keystyle = pinval('keystyle', 0)          # 0: string keys, 1: None / int / tuple / float / bool keys
+    if keystyle and DICT not in kinds:
+        assume(False)
     mode = pinval('visit', 0)
     if mode:
         cell = pin('cell', cell, 0, 5)
@@ -285,7 +294,7 @@ def remap_law(n: int, k0: int, k1: int, k2: int, k3: int, k4: int, p2: int, p3: 
     else:
         cell = action = None
     with notrace():
-        r = _body(kinds, parents, alias, cell, action)
+        r = _body(kinds, parents, alias, cell, action, keystyle)
     if r is None:
         assume(False)
     return r
@@ -296,10 +305,12 @@ def obligations(tier):
     q = tier == 'quick'
     T = 170 if q else 1500
     for root in range(1, 6):
-        obs.append(Ob('remap_law', timeout=T, pins={'root': root, 'nmin': 1, 'nmax': 4 if q else 5, 'alias': 0, 'visit': 0}))
+        for ks in ((0, 1) if root in (1, 2, 3) else (0,)):
+            obs.append(Ob('remap_law', timeout=T, pins={'root': root, 'nmin': 1, 'nmax': 4 if q else 5, 'alias': 0, 'visit': 0, 'keystyle': ks}))
         obs.append(Ob('remap_law', timeout=T, pins={'root': root, 'nmin': 1, 'nmax': 3 if q else 4, 'alias': 1, 'visit': 0},
                       need_kinds=('alias',) + (('cycle',) if root in (1, 2) else ())))
     for root in (1, 2, 3):
         for cell in range(6):
-            obs.append(Ob('remap_law', timeout=T, pins={'root': root, 'nmin': 2, 'nmax': 3 if q else 4, 'alias': 0 if q else 1, 'visit': 1, 'cell': cell}))
+            obs.append(Ob('remap_law', timeout=T, pins={'root': root, 'nmin': 2, 'nmax': 3 if q else 4, 'alias': 0 if q else 1, 'visit': 1, 'cell': cell,
+                                                        'keystyle': cell % 2}))
     return obs
